@@ -7,7 +7,7 @@ META = {
     "engine": "qsym-translator",
     "technique": "Coq reflection proofs (exact Laurent-polynomial matrices over Q(zeta_8)/Q(zeta_24)) of Kraus completeness for every built-in channel extracted from /repo by symbolic execution under p = sin^2(theta/2); numeric completeness on grids with endpoints; default.mixed against an independent Kraus-sum simulation with physicality checks",
     "design_ref": "DESIGN.md §3 C28",
-    "text": "compute_kraus_matrices of AmplitudeDamping, PhaseDamping, BitFlip, PhaseFlip, DepolarizingChannel, GeneralizedAmplitudeDamping, ResetError and PauliError (two words) is executed on formal parameters with every probability written as a squared sine/cosine of a formal angle (nested angles for two-parameter channels), so the square roots in the source become polynomials; Coq proves sum K^dagger K = I as an identity of normal forms, hence for every parameter value of the documented domain (kraus_complete_forall). The real code (with its 1e-14 stabiliser) is checked numerically on parameter grids including both endpoints (ThermalRelaxationError and DepolarizingChannel, whose Kraus operators need sqrt 3, only numerically). default.mixed is run on random noisy circuits with random wire orders and its density matrix compared (1e-9) with an independent numpy Kraus-sum simulation; Hermiticity, unit trace and positive semidefiniteness (1e-9) of the returned state are asserted.",
+    "text": "compute_kraus_matrices of AmplitudeDamping, PhaseDamping, BitFlip, PhaseFlip, DepolarizingChannel, GeneralizedAmplitudeDamping, ResetError and PauliError (two words) is executed on formal parameters with every probability written as a squared sine/cosine of a formal angle (nested angles for two-parameter channels), so the square roots in the source become polynomials; Coq proves sum K^dagger K = I as an identity of normal forms, hence for every parameter value of the documented domain (kraus_complete_forall). The real code (with its 1e-14 stabiliser) is checked numerically on parameter grids including both endpoints (ThermalRelaxationError and DepolarizingChannel, whose Kraus operators need sqrt 3, only numerically). default.mixed is run on a fixed corpus (every operator with a dedicated kernel in devices/qubit_mixed/apply_operation.py -- Identity, GlobalPhase, PauliX, PauliZ, S, T, PhaseShift, the real symmetric controlled gates incl. a 9-wire MultiControlledX, the diagonal-in-Z family, QubitDensityMatrix, StatePrep, Snapshot -- and the generic einsum/tensordot paths, applied to entangled superpositions with complex amplitudes, pure and mixed, unbatched and broadcast, natural and permuted wire order) and on random noisy circuits with random wire orders (which also draw these gates) and its density matrix compared (1e-9) with an independent numpy Kraus-sum simulation; Hermiticity, unit trace and positive semidefiniteness (1e-9) of the returned state are asserted.",
     "note": "Trusted: Coq kernel + stdlib real axioms; translator (incl. harness-declared square roots sqrt(sin^2)=sin on [0,pi] and the substitution of the stabilising epsilon by 0 for the symbolic run); the default.mixed comparison is numeric differential testing against a harness implementation of the Kraus sum, not a theorem; QubitChannel (user-supplied Kraus) and readout errors are not covered.",
     "assumptions": ["0 <= theta <= pi so that sqrt(sin^2(theta/2)) = sin(theta/2) and sqrt(cos^2(theta/2)) = cos(theta/2)"],
     "trusted": ["translator harness/qsym.py (SQRT_TABLE declarations in impl/c28_impl.py)", "independent Kraus-sum simulation in impl/c28_impl.py"],
@@ -46,8 +46,8 @@ def run(ctx):
         if r["err"] > 1e-9 or r["herm"] > 1e-9 or r["trace"] > 1e-9 or r["min_eig"] < -1e-9:
             ctx.violation("mixed:" + json.dumps(r["ops"])[:300], r, what="default.mixed state is not physical or differs from the Kraus-sum simulation")
     ctx.coverage.update({"evaluations": len(out["numeric"]) + len(out["runs"]) + len(obl), "distinct_nontrivial": len(obl) + len(out["runs"]),
-                         "rule": "one completeness obligation per channel (universal in parameters); grid points incl. endpoints; random noisy circuits on default.mixed",
-                         "channels_proved": [o["channel"] for o in obl], "grid_points": len(out["numeric"]), "noisy_circuits": len(out["runs"]),
+                         "rule": "one completeness obligation per channel (universal in parameters); grid points incl. endpoints; fixed dedicated-kernel corpus + random noisy circuits on default.mixed",
+                         "channels_proved": [o["channel"] for o in obl], "grid_points": len(out["numeric"]), "noisy_circuits": len(out["runs"]), "fixed_circuits": sum(1 for r in out["runs"] if r.get("fixed")),
                          "worst_mixed_err": max((r["err"] for r in out["runs"]), default=0)})
     for r in out["runs"][:2]:
         ctx.sample({"ops": r["ops"], "wire_order": r["order"], "err": r["err"]})
